@@ -116,6 +116,11 @@ class Scn:
                 self.w.assume(z3.UGE(length, z3.BitVecVal(min_len, 64)))
         b = Blob(name, length)
         b.seed = len(self.blobs) + 1
+        # axioms relating byte-string equality and length
+        for o in self.blobs.values():
+            same = sb.same_blob_var(b, o)
+            self.w.assume(z3.Implies(same, sb._bv(b.len) == sb._bv(o.len)))
+            self.w.assume(z3.Implies(z3.And(sb._bv(b.len) == 0, sb._bv(o.len) == 0), same))
         self.blobs[name] = b
         return b
 
